@@ -662,9 +662,10 @@ func (txn *KVTxn) InitPipelinedMemDB() error {
 				return errors.New("invalid iterator")
 			}
 			endKey := it.Key()
-			if len(txn.committer.pipelinedCommitInfo.pipelinedEnd) == 0 || bytes.Compare(txn.committer.pipelinedCommitInfo.pipelinedEnd, endKey) < 0 {
-				txn.committer.pipelinedCommitInfo.pipelinedEnd = make([]byte, len(endKey))
-				copy(txn.committer.pipelinedCommitInfo.pipelinedEnd, endKey)
+			// pipelinedEnd is the exclusive upper bound of the range handed to resolveFlushedLocks / RunOnRange,
+			// so it must be strictly greater than the largest flushed key (NextKey copies the key).
+			if len(txn.committer.pipelinedCommitInfo.pipelinedEnd) == 0 || bytes.Compare(txn.committer.pipelinedCommitInfo.pipelinedEnd, endKey) <= 0 {
+				txn.committer.pipelinedCommitInfo.pipelinedEnd = tikv.NextKey(endKey)
 			}
 			it.Close()
 		}
